@@ -25,6 +25,8 @@ def generate(tier, seed):
             c['fmt'] = 'v2'      # version-2 package (flux cube + convolved files), read by Models._read_version_2
         if k % 2 == 1:           # the Fitter has fitted other sources before (their results are not examined; the judged fit must not depend on them)
             c['warmup'] = [fitcase.gen_source(rng, len(c['wav']), min_fitted=1) for _ in range(rng.randint(1, 2))]
+        if k % 11 == 4:          # the judged source is an object that was fitted before in another state and edited in place since
+            c['edited_from'] = fitcase.gen_source(rng, len(c['wav']), min_fitted=1)
         if k % 12 == 0:   # malformed: smallest aperture above theta*dmin in one band
             j = rng.randrange(len(c['wav']))
             rmin = c['theta'][j] * c['drange'][0] * 1000.0
